@@ -47,12 +47,27 @@ Canon(int, frac) == <<int, frac>>
 CanonIdempotent == \A i \in {<<1>>, <<1, 0>>}, fr \in {<<>>, <<5>>, <<0, 5>>} :
                       Canon(Canon(i, fr)[1], Canon(i, fr)[2]) = Canon(i, fr)
 
-VARIABLES fld, prec, sp, n, f
-vars == <<fld, prec, sp, n, f>>
-Init == /\ fld \in Fields /\ prec \in (IF fld.cur THEN Precisions ELSE {2})
+(* ISO 4217 minor units: every code not listed has two decimals *)
+ZeroDecimal  == {"BIF", "CLP", "DJF", "GNF", "ISK", "JPY", "KMF", "KRW", "PYG", "RWF", "UGX", "UYI", "VND", "VUV",
+                 "XAF", "XOF", "XPF"}
+ThreeDecimal == {"BHD", "IQD", "JOD", "KWD", "LYD", "OMR", "TND"}
+FourDecimal  == {"CLF", "UYW"}
+TwoDecimalSample == {"USD", "EUR", "GBP", "CHF", "CAD", "AUD", "UYU", "CLE", "BHT", "JPX", "KWT", "MXN",
+                     "CNY", "INR", "BRL", "ZAR", "SEK", "NOK", "DKK", "PLN", "SGD", "HKD", "NZD", "TRY"}
+CurrencyTable == ZeroDecimal \cup ThreeDecimal \cup FourDecimal \cup TwoDecimalSample
+DecimalsOf(c) == IF c \in ZeroDecimal THEN 0 ELSE IF c \in ThreeDecimal THEN 3 ELSE IF c \in FourDecimal THEN 4 ELSE 2
+
+VARIABLES fld, prec, sp, n, f, cur
+vars == <<fld, prec, sp, n, f, cur>>
+\* cur = "" : the four precision classes with their representative codes; otherwise the currency-table sweep
+Init == /\ fld \in Fields
+        /\ cur \in {""} \cup (IF fld.f \in {"32B", "60F"} THEN CurrencyTable ELSE {})
+        /\ prec \in (IF cur # "" THEN {DecimalsOf(cur)} ELSE IF fld.cur THEN Precisions ELSE {2})
+
         /\ sp \in Spellings /\ n \in IntDigits /\ f \in FracDigits
         /\ (sp \in OtherSpellings \ {"plus", "minus", "twosep", "space"}) => (n = 1 /\ f = 0)
         /\ (sp = "nocomma") => f = 0
+        /\ (cur # "") => (sp = "canon" /\ n = 2 /\ f \in {prec, prec + 1})
         /\ (fld.f = "36") => n <= 5      \* field 36 documents a plausibility range (0.0001 .. 100000)
         /\ (fld.f = "61") => sp \in DecimalSpellings \cup {"plus", "minus"}
                                          \* in 61 the amount is followed by further components, so
@@ -64,6 +79,9 @@ OnlyDecimals       == Accept(fld, prec, sp, n, f) => sp \in DecimalSpellings
 PrecisionRespected == (Accept(fld, prec, sp, n, f) /\ fld.cur) => f <= prec
 LengthRespected    == Accept(fld, prec, sp, n, f) => TextLen(sp, n, f) <= fld.maxlen
 
-Emit == EmitCases => PrintT(ToJson([f |-> fld.f, maxlen |-> fld.maxlen, cur |-> fld.cur, prec |-> prec, sp |-> sp,
+TableDisjoint == ZeroDecimal \cap ThreeDecimal = {} /\ ZeroDecimal \cap FourDecimal = {} /\ ThreeDecimal \cap FourDecimal = {}
+                 /\ TwoDecimalSample \cap (ZeroDecimal \cup ThreeDecimal \cup FourDecimal) = {}
+
+Emit == EmitCases => PrintT(ToJson([f |-> fld.f, maxlen |-> fld.maxlen, cur |-> fld.cur, code |-> cur, prec |-> prec, sp |-> sp,
                                     n |-> n, fr |-> f, accept |-> Accept(fld, prec, sp, n, f)]))
 =============================================================================
